@@ -238,6 +238,20 @@ Section AE.
     if n <? 0 then (l, 0) else cut l n.
 End AE.
 
+(* ---- after the first error: the sticky error state ----
+   readRecord stores every permanent error in c.in.err (setErrorLocked: protocol errors, local and remote
+   alerts, io.EOF, io.ErrUnexpectedEOF).  A record whose decrypt failed is even parked in c.input with
+   b.off = 0 (readRecord carries on to `c.input = b`), so the rejected bytes sit in the connection; Conn.Read
+   tests c.in.err BEFORE it looks at c.input, which is what keeps them from the application.  Hence every
+   Read call after the one that returned the error st returns (0 bytes, st), whatever its buffer size, and
+   the sequence number does not move.  Conn.Write fails with the same error iff a local alert was sent
+   (sendAlertLocked stores it in c.out.err), and succeeds otherwise. *)
+Definition read_after (st : Z) (bufsize : Z) : Z * Z := (0, st).
+Definition reads_after (st : Z) (bufs : list Z) : list (Z * Z) := map (read_after st) bufs.
+Definition write_after (st : Z) : Z := if (100 <=? st) && (st <? 300) then st else 0.
+Definition total_delivered (d : list Z) (more : list (Z * Z)) : Z :=
+  blen d + fold_right (fun r a => fst r + a) 0 more.
+
 (* ---- the free (Dolev-Yao) instance used for the executable model: a sealed body is the term itself ---- *)
 (* pm = true: same sealed record, but some of its (unauthenticated) SSLv3 padding bytes were modified *)
 Inductive sbody := Sealed (k t v : Z) (p : list Z) (pm : bool).
